@@ -14,7 +14,7 @@ ASSUMPTIONS = [
 ]
 TRUSTED = []
 
-KINDS = ["Calendar", "Event", "Todo", "Journal", "FreeBusy", "Alarm", "Timezone", "X-FOO", "x-bar", "VVENUE"]
+KINDS = ["Calendar", "Event", "Todo", "Journal", "FreeBusy", "Alarm", "Timezone", "X-FOO", "x-bar", "VVENUE", "X-Wrap"]
 VALUES = [("summary", "a"), ("summary", "b"), ("SUMMARY", "a"), ("description", "x,y;z"), ("uid", "u1"), ("uid", "u2"),
           ("dtstart", datetime(2020, 1, 2, 10, 0, 0)), ("dtstart", date(2020, 1, 2)), ("duration", timedelta(hours=1)),
           ("priority", 5), ("priority", 6), ("x-custom", "v"), ("X-Custom", "w"), ("categories", ["a", "b"]),
@@ -59,13 +59,18 @@ def twin_values():
     ]
 
 
+def upper_names(s):
+    """the text with the names of its BEGIN/END lines in upper case"""
+    return "\r\n".join(l.upper() if l.upper().startswith(("BEGIN:", "END:")) else l for l in s.split("\r\n"))
+
+
 def new_comp(kind):
     import icalendar
     cls = getattr(icalendar, kind, None)
     if cls is not None:
         return cls()
     c = icalendar.cal.Component()
-    c.name = kind.upper()
+    c.name = kind if kind in ("x-bar", "X-Wrap") else kind.upper()      # names the caller spelled in lower or mixed case
     return c
 
 
@@ -425,7 +430,11 @@ def run(ctx, res):
                 back = type(t).from_ical(s)
                 r1, r2 = safe_eq(t, back), safe_eq(back, t)
                 if not (r1 == 1 and r2 == 1 and T.impl_ser(back) == s):
-                    causes = reparse_diff(t, back) if T.impl_ser(back) == s else None
+                    sb = T.impl_ser(back)
+                    causes = reparse_diff(t, back) if sb in (s, upper_names(s)) else None
+                    if sb != s and sb == upper_names(s):
+                        # only the letter case of BEGIN/END names differs; that explains other bytes, never an unequal copy
+                        causes = None if (not causes and not (r1 == 1 and r2 == 1)) else (causes or []) + ["C20-F8"]
                     if causes and all(c in known for c in causes):
                         for c in sorted(set(causes)):
                             res.known(c, {"tree": s[:200], "t==back": r1, "back==t": r2}, known[c]["summary"])
